@@ -154,7 +154,7 @@ def abbrev(pt):
     n = t.count('*'); t = t.replace('*', '')
     t = re.sub(r'\b(const|volatile|class|struct|enum|typename)\b', '', t).strip()
     t = TYPE_ALIASES.get(t, t)
-    t = t.replace('_ST_PRIVATE::', '').replace('ST::', '').replace('std::', '')
+    t = t.replace('_ST_PRIVATE::', '').replace('ST::', '').replace('std::', 'std_')
     for a, b in ABBR:
         t = re.sub(r'(?<![\w])' + re.escape(a) + r'(?![\w])', b, t)
     t = re.sub(r'\W+', '', t)
@@ -688,6 +688,7 @@ class Emitter:
     def callee_returns_ref(self, n):
         rd = self.callee_decl(n)
         if rd is None: return False
+        if rd.get('id') not in self.ix.funcs: return False      # externals (std::min/max ...) are value-returning stubs
         ret, _, _ = split_fn_type(rd['type']['qualType'])
         return ret.endswith('&')
     def callee_decl(self, n):
@@ -1058,7 +1059,7 @@ class Emitter:
         return any(self.contains_break(c) for c in n.get('inner', []))
     def loop_cut(self, n, k, no, ls, cond_text, inc, body, ind):
         """textbook loop cutting (DESIGN.md section 3, mode B): assert INV; havoc; assume INV; one arbitrary iteration; assume(0)"""
-        p = '    ' * ind; f = cident(self.cur_q); tag = '%s.loop%d' % (f, no)
+        p = '    ' * ind; f = self.cur_c; tag = '%s.loop%d' % (f, no)
         brk = '__brk_%s_%d' % (f, no); cont = '__cont_%s_%d' % (f, no)
         o = self.out.append
         for g in ls.get('before', []): o(p + g)
